@@ -390,7 +390,7 @@ type probeShape struct {
 	startIsHash bool
 	step        int64
 	absentTest  bool
-	equalRecv   string // "new" when the probing value is the receiver of Equal
+	equalRecv   string   // "new" when the probing value is the receiver of Equal
 	otherExits  []string // exits of the probe loop decided by anything but the absent test or the Equal result
 	fn          *ssa.Function
 }
